@@ -2,7 +2,7 @@
    Time is a property of CPython's regex engine; what is proved is a bound on the size of the backtracking
    search (the number of ends, with multiplicity, of the reference semantics Regex.ends) for the patterns
    REGENERATED from the sources; the step <-> seconds link is measured, not proved. *)
-From SV Require Import Base Regex RegexFacts RegexCost DetCost RegexSem.
+From SV Require Import Base Regex RegexFacts RegexCost DetCost RegexSem AttrPat AttrCost.
 From SV.gen Require Import RegexGen.
 
 (* a single-ended expression has at most one end on every subject *)
@@ -94,3 +94,11 @@ Print Assumptions C07_bound_for_every_subexpression.
 Theorem C07_matcher_is_the_declarative_semantics : forall r st c st', has_end (ends r st c) st' <-> M r st st'.
 Proof. exact ends_iff_M. Qed.
 Print Assumptions C07_matcher_is_the_declarative_semantics.
+
+(* The attribute patterns the parser builds at RUN TIME from the selector's value (AttrPat.attr_template, validated
+   AST-for-AST against the live parser on every run) are certified for EVERY value v, operator and flag, with a degree
+   that does not depend on v: matching one against any attribute value searches at most (n+2)^8 ends. *)
+Theorem C07_runtime_attribute_patterns : forall op v ic dotall st c,
+  length (ends (attr_template op v ic dotall) st c) <= (length (after st) + 2) ^ 8.
+Proof. exact attr_template_bound. Qed.
+Print Assumptions C07_runtime_attribute_patterns.
